@@ -9,12 +9,12 @@ SLICES = [
      "begin": r"bool blocks_connected = false;", "end": r"if \(!blocks_connected\) return true;", "include_end": True,
      "prologue": "int ActivateBestChain_round(const CBlockIndex* pindexMostWork, const CBlockIndex* starting_tip)\n{\n    const CBlockIndex* pindexNewTip = NULL;",
      "epilogue": "    g_final_most_work = pindexMostWork;\n    return 2; /* goes on to notify and to the outer loop `while (pindexNewTip != pindexMostWork)` */\n}",
-     "rules": [R("drop:connected_blocks vector", r"std::vector<ConnectedBlock> connected_blocks;", "", False),
+     "rules": [R("ghost:connected_blocks (number of blocks the step connected)", r"std::vector<ConnectedBlock> connected_blocks;", "ConnectedList connected_blocks = {0};", False), R("ghost:connected_blocks.empty()", r"connected_blocks\.empty\(\)", "(connected_blocks.n == 0)", False),
                R("stub:FindMostWorkChain()", r"(?<![\w.>])FindMostWorkChain\(\)", "FindMostWorkChain_stub()", False),
                R("ghost:m_chain.Tip()", r"m_chain\.Tip\(\)", "g_tip", False),
                R("drop:nullBlockPtr", r"std::shared_ptr<const CBlock> nullBlockPtr;", "", False),
                R("drop:chainstate_role (signals only)", r"const ChainstateRole chainstate_role\{this->GetRole\(\)\};", "", False),
-               R("stub:ActivateBestChainStep(state, *pindexMostWork, block, fInvalidFound, connected_blocks)", r"ActivateBestChainStep\(state, \*pindexMostWork, pblock && pblock->GetHash\(\) == pindexMostWork->GetBlockHash\(\) \? pblock : nullBlockPtr, fInvalidFound, connected_blocks\)", "ActivateBestChainStep_stub(pindexMostWork, &fInvalidFound)", False),
+               R("stub:ActivateBestChainStep(state, *pindexMostWork, block, fInvalidFound, connected_blocks)", r"ActivateBestChainStep\(state, \*pindexMostWork, pblock && pblock->GetHash\(\) == pindexMostWork->GetBlockHash\(\) \? pblock : nullBlockPtr, fInvalidFound, connected_blocks\)", "ActivateBestChainStep_stub(pindexMostWork, &fInvalidFound, &connected_blocks)", False),
                R("return false (system error) -> 0", r"return 0;", "return 0;", False),
                R("drop:BlockConnected signal loop", r"for \(auto& \[index, block\] : std::move\(connected_blocks\)\) \{\s*if \(m_chainman\.m_options\.signals\) \{[^}]*\}\s*\}", "", False),
                R("stub:ReachedTarget()", r"(?<![\w.>])ReachedTarget\(\)", "ReachedTarget_stub()", False),
